@@ -5,7 +5,7 @@
    The input is the byte list still unread; EOF is -1 as in the Go code. *)
 From GL Require Import Common.Bytes.
 
-Inductive lexerr := Unterminated | UntermLong | InvalidLong | NotString.
+Inductive lexerr := Unterminated | UntermLong | InvalidLong | NotString | EscapeTooLarge.
 Inductive res (A : Type) := Ok (a : A) | Err (e : lexerr) | OutOfFuel.
 Arguments Ok {A} a. Arguments Err {A} e. Arguments OutOfFuel {A}.
 
@@ -30,20 +30,24 @@ Definition is_dec (c : Z) : bool := (48 <=? c) && (c <=? 57).
 Definition to_byte (c : Z) : Z := c mod 256.
 
 (* ---------- impl: scanEscape (called after the backslash was read) ---------- *)
-(* returns the bytes written to the buffer and the remaining input *)
-Definition scan_escape (s : bytes) : bytes * bytes :=
+(* returns the bytes written to the buffer and the remaining input; None: a decimal escape above
+   255, the error "escape sequence too large" *)
+Definition dec_escape (v : Z) (r : bytes) : option (bytes * bytes) :=
+  if 255 <? v then None else Some ([to_byte v], r).
+
+Definition scan_escape (s : bytes) : option (bytes * bytes) :=
   let '(ch, r) := next s in
-  if ch =? 97 then ([7], r)           (* \a *)
-  else if ch =? 98 then ([8], r)      (* \b *)
-  else if ch =? 102 then ([12], r)    (* \f *)
-  else if ch =? 110 then ([10], r)    (* \n *)
-  else if ch =? 114 then ([13], r)    (* \r *)
-  else if ch =? 116 then ([9], r)     (* \t *)
-  else if ch =? 118 then ([11], r)    (* \v *)
-  else if ch =? 92 then ([92], r)
-  else if ch =? 34 then ([34], r)
-  else if ch =? 39 then ([39], r)
-  else if ch =? 10 then ([10], r)     (* backslash-newline; Next has already folded CR/CRLF/LFCR;
+  if ch =? 97 then Some ([7], r)           (* \a *)
+  else if ch =? 98 then Some ([8], r)      (* \b *)
+  else if ch =? 102 then Some ([12], r)    (* \f *)
+  else if ch =? 110 then Some ([10], r)    (* \n *)
+  else if ch =? 114 then Some ([13], r)    (* \r *)
+  else if ch =? 116 then Some ([9], r)     (* \t *)
+  else if ch =? 118 then Some ([11], r)    (* \v *)
+  else if ch =? 92 then Some ([92], r)
+  else if ch =? 34 then Some ([34], r)
+  else if ch =? 39 then Some ([39], r)
+  else if ch =? 10 then Some ([10], r)     (* backslash-newline; Next has already folded CR/CRLF/LFCR;
                                          the Go `case '\r'` can therefore never be taken *)
   else if is_dec ch then
     (* up to two more digits by Peek; strconv.ParseInt(...,10,32); byte(val) *)
@@ -51,10 +55,10 @@ Definition scan_escape (s : bytes) : bytes * bytes :=
     if is_dec (peek r) then
       let d2 := peek r - 48 in let r2 := tl r in
       if is_dec (peek r2) then
-        let d3 := peek r2 - 48 in ([to_byte (d1 * 100 + d2 * 10 + d3)], tl r2)
-      else ([to_byte (d1 * 10 + d2)], r2)
-    else ([to_byte d1], r)
-  else ([to_byte ch], r).             (* any other character stands for itself; EOF writes 0xff *)
+        let d3 := peek r2 - 48 in dec_escape (d1 * 100 + d2 * 10 + d3) (tl r2)
+      else dec_escape (d1 * 10 + d2) r2
+    else dec_escape d1 r
+  else Some ([to_byte ch], r).             (* any other character stands for itself; EOF writes 0xff *)
 
 (* ---------- impl: scanString; q is the opening quote, already read ---------- *)
 Fixpoint scan_str (fuel : nat) (q : Z) (s acc : bytes) : res (bytes * bytes) :=
@@ -64,7 +68,11 @@ Fixpoint scan_str (fuel : nat) (q : Z) (s acc : bytes) : res (bytes * bytes) :=
     let '(ch, r) := next s in
     if ch =? q then Ok (acc, r)
     else if (ch =? 10) || (ch <? 0) then Err Unterminated
-    else if ch =? 92 then let '(em, r') := scan_escape r in scan_str f q r' (acc ++ em)
+    else if ch =? 92 then
+      match scan_escape r with
+      | Some (em, r') => scan_str f q r' (acc ++ em)
+      | None => Err EscapeTooLarge
+      end
     else scan_str f q r (acc ++ [ch])
   end.
 
